@@ -96,6 +96,17 @@ def robustness(ck):
                     ck.violation("the caller's %s array was modified" % lab, dict(layout=lab, N=N, nonfinite=pos, kw=kw), tag="caller-modified")
                 if not same_result(r, refa):
                     ck.violation("auto result for %s differs from the zero-filled record" % lab, dict(layout=lab, N=N, nonfinite=pos, kw=kw), tag="layout/sanitise")
+            # containers whose non-finite samples only appear at the conversion to float64: Python lists with None for missing samples,
+            # object-dtype arrays holding nan/inf — same result as the zero-filled record, for one and for two channels
+            xl = [None if not np.isfinite(v) else float(v) for v in x]; yl = [None if not np.isfinite(v) else float(v) for v in y]
+            for lab, obj, rr in [("1-D list with None", xl, refa), ("1-D object array", np.array(list(x), dtype=object), refa),
+                                 ("list of channels with None", [xl, yl], ref), ("2xN object array", np.array([list(x), list(y)], dtype=object), ref)]:
+                try:
+                    r = SpectrumAnalyzer(obj, 2.0, **kw).compute(); runs += 1
+                except Exception as e:
+                    ck.violation("%s input raises %s: %s" % (lab, type(e).__name__, str(e)[:100]), dict(layout=lab, N=N, nonfinite=pos, kw=kw), tag="layout/sanitise"); continue
+                if not same_result(r, rr):
+                    ck.violation("result for a %s (non-finite samples %s) differs from the zero-filled record" % (lab, pos[:3]), dict(layout=lab, N=N, nonfinite=pos, kw=kw), tag="layout/sanitise")
             xi = np.round(xz * 100).astype(np.int64)
             for lab, obj, refd in [("int64", xi, xi.astype(float)), ("float32", xz.astype(np.float32), xz.astype(np.float32).astype(float)), ("bool", xz > 0, (xz > 0).astype(float))]:
                 r = SpectrumAnalyzer(obj, 2.0, **kw).compute(); r0 = SpectrumAnalyzer(refd, 2.0, **kw).compute(); runs += 1
